@@ -86,7 +86,7 @@ def len_strings(ctx):
             keep = {0, 7, 8, 63, 64, 127, 128, 255, 256, 1023, 1024, 2047, 2048, 4095, 4096, 4097, 8191, 8192, 16383, 16384, 32767, 32768, L // 2}
             keep |= {L - 1 - p for p in (0, 1, 7, 8, 63, 64, 127, 128, 255, 256, 4095, 4096)}
             keep |= {(L // b) * b - d for b in (8, 64, 128) for d in (0, 1)}
-            if L in (8192, 16384, 32768, 65533, 65534, 65544):
+            if L in (8192, 16384, 32768, 65533, 65534, 65544) or L > 100000:
                 keep = {0, 64, 4096, L // 2, L - 1, L - 2, L - 9, L - 65, (L // 8) * 8 - 1, (L // 8) * 8, (L // 64) * 64 - 1, (L // 64) * 64}
             pos = [p for p in pos if p in keep]
         for i, p in enumerate(pos):
@@ -247,6 +247,9 @@ def run(ctx, c12):
     def oracle_only(stream, strs, profile):
         if not strs:
             return
+        # neighbours in the list go to different shards (the harness processes get contiguous blocks): the few very long
+        # strings (thorough tier: 1 MiB) must not pile up in one process (its output is capped at 256 MiB)
+        strs = [x for r in range(16) for x in strs[r::16]]
         cases = leaf_cases(strs)
         impl, _ = ctx.correspond(stream, cases, nontrivial=lambda c, i: True, model=False, profile=profile)
         base = len(impl) - len(cases)
